@@ -24,6 +24,42 @@ func init() {
 	})
 }
 
+// linearForm decomposes an integer expression built from + and − into named terms and a constant.
+func linearForm(v ssa.Value) (map[string]int64, int64, bool) {
+	terms := map[string]int64{}
+	var k int64
+	ok := true
+	var walk func(v ssa.Value, sign int64)
+	walk = func(v ssa.Value, sign int64) {
+		v = core.Unwrap(v)
+		if c, isC := core.ConstInt(v); isC {
+			k += sign * c
+			return
+		}
+		if bin, isBin := v.(*ssa.BinOp); isBin && (bin.Op == token.ADD || bin.Op == token.SUB) {
+			walk(bin.X, sign)
+			if bin.Op == token.ADD {
+				walk(bin.Y, sign)
+			} else {
+				walk(bin.Y, -sign)
+			}
+			return
+		}
+		name := core.Path(v)
+		if name == "" {
+			if ex, isEx := v.(*ssa.Extract); isEx {
+				name = fmt.Sprintf("extract:%s#%d", ex.Tuple.Name(), ex.Index)
+			} else {
+				ok = false
+				name = v.Name()
+			}
+		}
+		terms[name] += sign
+	}
+	walk(v, 1)
+	return terms, k, ok
+}
+
 func firstCall(fn *ssa.Function, match func(*core.Site) bool) *core.Site {
 	for _, s := range core.Sites(fn) {
 		if match(s) {
@@ -156,6 +192,41 @@ func runC10(c *core.Ctx) {
 				c.Check(passed[f], "C10.modules", "State.Commit/"+m.Field, call.Pos(), "module is handed to tree.Commit", "state module "+m.Field+" is not passed to tree.Commit: its dirty data would never reach the tree")
 			}
 			c.Floor("C10.modules", n, 12, "state modules")
+		}
+	}
+
+	// ---- prune: State.Commit may delete only versions at least keepLastStates+1 behind the one
+	// just saved. The app DB's height marker is written after the tree commit, so after a crash in
+	// between the node restarts at version−1: that version must still exist whatever the
+	// configured retention (minimum 1).
+	if sc != nil {
+		var del, tcommit *core.Site
+		for _, s := range core.Sites(sc) {
+			if s.Common.IsInvoke() && s.Common.Method.Name() == "DeleteVersion" {
+				del = s
+			}
+			if s.Common.IsInvoke() && s.Common.Method.Name() == "Commit" {
+				tcommit = s
+			}
+		}
+		if del == nil || tcommit == nil {
+			c.Unk("C10.prune", "State.Commit/DeleteVersion", sc.Pos(), "DeleteVersion / tree.Commit not found in State.Commit")
+		} else {
+			terms, k, okL := linearForm(del.Arg(0))
+			desc := fmt.Sprintf("%v %+d", terms, k)
+			okShape := okL && k <= -1
+			sawVersion, sawKeep := false, false
+			for name, coef := range terms {
+				switch {
+				case strings.HasSuffix(name, ".keepLastStates") && coef == -1:
+					sawKeep = true
+				case coef == 1 && (strings.Contains(name, "Commit(") || strings.HasPrefix(name, "extract:")):
+					sawVersion = true
+				default:
+					okShape = false
+				}
+			}
+			c.Check(okShape && sawVersion && sawKeep, "C10.prune", "State.Commit/pruned-version", del.Pos(), "prunes version − keepLastStates − k with k ≥ 1 ("+desc+")", "State.Commit prunes "+desc+": with the smallest retention the version the node must reload after a crash between the tree commit and the height marker is already deleted")
 		}
 	}
 
